@@ -1,0 +1,7 @@
+//go:build !verif
+
+package service
+
+import "com.tuntun.rangers/node/src/common"
+
+func verifGate(point string, hash common.Hash) {}
